@@ -98,6 +98,11 @@ func (r *FederationRequest) Sign(serverName spec.ServerName, keyID gomatrixserve
 		return fmt.Errorf("gomatrixserverlib: the request is already signed by a different server")
 	}
 	r.fields.Origin = serverName
+	// The signed JSON object cannot carry a string that is not valid UTF-8: json.Marshal would sign
+	// U+FFFD in place of every invalid byte, and a request differing in those bytes would verify too.
+	if err := r.checkFieldsUTF8(); err != nil {
+		return err
+	}
 	// The request fields are already in the form required by the specification
 	// So we can just serialise the request fields using the default marshaller
 	data, err := json.Marshal(r.fields)
@@ -112,6 +117,16 @@ func (r *FederationRequest) Sign(serverName spec.ServerName, keyID gomatrixserve
 	// to set the Signatures field, (This will clobber the other fields but they
 	// will all round-trip through an encode/decode.)
 	return json.Unmarshal(signedData, &r.fields)
+}
+
+// checkFieldsUTF8 checks that the signed string fields of the request are valid UTF-8.
+func (r *FederationRequest) checkFieldsUTF8() error {
+	for _, field := range []string{r.fields.Method, r.fields.RequestURI, string(r.fields.Origin), string(r.fields.Destination)} {
+		if !utf8.ValidString(field) {
+			return fmt.Errorf("gomatrixserverlib: the request method, URI, origin and destination must be valid UTF-8, not %q", field)
+		}
+	}
+	return nil
 }
 
 // HTTPRequest constructs an net/http.Request for this matrix request.
@@ -272,6 +287,11 @@ func readHTTPRequest(req *http.Request) (*FederationRequest, error) { // nolint:
 
 	result.fields.Method = req.Method
 	result.fields.RequestURI = req.URL.RequestURI()
+	// What is verified is the JSON encoding of these fields, in which every byte sequence that is not
+	// valid UTF-8 reads U+FFFD: such a method or URI would not be bound by the signature.
+	if err := result.checkFieldsUTF8(); err != nil {
+		return nil, err
+	}
 
 	content, err := io.ReadAll(req.Body)
 	if err != nil {
@@ -307,6 +327,9 @@ func readHTTPRequest(req *http.Request) (*FederationRequest, error) { // nolint:
 		}
 		result.fields.Origin = origin
 		result.fields.Destination = destination
+		if err := result.checkFieldsUTF8(); err != nil {
+			return nil, err
+		}
 		if result.fields.Signatures == nil {
 			result.fields.Signatures = map[spec.ServerName]map[gomatrixserverlib.KeyID]string{origin: {key: sig}}
 		} else {
